@@ -24,7 +24,9 @@ struct StopRun {};
 static std::string run_case(const Case& cs, long* iterations_out = nullptr, long* files_out = nullptr, long* rows_out = nullptr) {
     const double S = cs.s_over_dt * cs.dt, T = cs.t_over_s * S; char buf[400];
     sc::Mesh ico = sc::icosphere(1); std::vector<sw::CellSpec> cells;
-    for (int i = 0; i < 2; i++) { auto ty = sc::make_cell_type(i == 0 ? 0 : (cs.pop == 6 ? 1 /* an ECM cell: once the epithelial cell is gone no cell of the population can move */ : 2), 3); ty->bulk_modulus_ = 1e-9; ty->mass_density_ = 1e6; for (auto& f : ty->face_types_) { f.surface_tension_ = 0; f.bending_modulus_ = 0; } ty->min_vol_ = 0; cells.push_back({sc::translated(ico, 3.0 * i, 0, 0), ty}); }
+    for (int i = 0; i < 2; i++) { auto ty = sc::make_cell_type(i == 0 ? 0 : (cs.pop == 6 ? 1 /* an ECM cell: once the epithelial cell is gone no cell of the population can move */ : 2), 3); ty->bulk_modulus_ = 1e-9; ty->mass_density_ = 1e6; for (auto& f : ty->face_types_) { f.surface_tension_ = 0; f.bending_modulus_ = 0; } ty->min_vol_ = 0; sc::Mesh mi = sc::translated(ico, 3.0 * i, 0, 0);
+        if (i == 1 && (cs.pop == 0 || cs.pop == 1)) { /* an input point no triangle uses, in the middle of the point list: a free node slot with no free face slot, which every file must compact away */ sc::Mesh u; u.name = mi.name; for (size_t k = 0; k < mi.nv(); k++) { if (k == 3) { u.pos.push_back(3.1); u.pos.push_back(0.2); u.pos.push_back(0.05); } for (int j = 0; j < 3; j++) u.pos.push_back(mi.pos[3*k+j]); } for (unsigned t : mi.tri) u.tri.push_back(t >= 3 ? t + 1 : t); mi = u; }
+        cells.push_back({mi, ty}); }
     if (cs.pop == 5) { // a static (ECM) neighbour whose input mesh has edges shorter than l_min: the refiner collapses them in iteration 0 and the cell carries free slots from then on
         auto ty = sc::make_cell_type(1, 1); ty->mass_density_ = 1e6; ty->min_vol_ = 0; sc::Mesh m = sc::translated(sc::scaled(ico, 0.5, 0.5, 0.5), 0, 3.0, 0);   /* edges of 0.27-0.31 against l_min = 0.3 */ cells.push_back({m, ty}); }
     std::string out = sw::scratch_root() + "/c19";
